@@ -4956,6 +4956,11 @@ class ResponseFuture(object):
             self._metrics.request_timer.addValue(time.time() - self._start_time)
 
         with self._callback_lock:
+            if self._final_result is not _NOT_SET or self._final_exception is not None:
+                # the outcome of this execution (or page fetch) has already been
+                # delivered, e.g. by another speculative execution or by the
+                # client timeout: the first outcome wins
+                return
             self._final_result = response
             # save off current callbacks inside lock for execution outside it
             # -- prevents case where _final_result is set, then a callback is
@@ -4978,6 +4983,9 @@ class ResponseFuture(object):
             self._metrics.request_timer.addValue(time.time() - self._start_time)
 
         with self._callback_lock:
+            if self._final_result is not _NOT_SET or self._final_exception is not None:
+                # first outcome wins, see _set_final_result
+                return
             self._final_exception = response
             # save off current errbacks inside lock for execution outside it --
             # prevents case where _final_exception is set, then an errback is
